@@ -44,7 +44,7 @@ def case_chain(kind):
              'tree_model': tree}
         params['theta_unc'] = P([0.4])
         return [m], params, 'm', {}
-    if kind in ('likelihood', 'likelihood-rescaled'):
+    if kind in ('likelihood', 'likelihood-rescaled', 'likelihood-rescaled-tipstates'):
         like = {'id': 'm', 'type': 'TreeLikelihoodModel', 'tree_model': tree,
                 'site_model': {'id': 'site', 'type': 'WeibullSiteModel', 'categories': 2,
                                'shape': {'id': 'shape', 'type': 'Parameter', 'tensor': [0.7]}},
@@ -54,7 +54,9 @@ def case_chain(kind):
                 'site_pattern': {'id': 'sp', 'type': 'SitePattern', 'alignment': cm.alignment_json(SEQS, taxa='taxa')}}
         params['shape'] = P([0.7], 0.05, None)
         params['rate'] = P([0.05], 0.001, None)
-        return [like], params, 'm', {'rescale': kind.endswith('rescaled')}
+        if 'tipstates' in kind:
+            like['use_tip_states'] = True
+        return [like], params, 'm', {'rescale': 'rescaled' in kind}
     if kind == 'joint':
         specs = [
             {'id': 'like', 'type': 'TreeLikelihoodModel', 'tree_model': tree,
@@ -101,6 +103,7 @@ CASES.update({
     'chain:constant coalescent on exp-transformed theta, ratio tree': lambda: case_chain('coalescent'),
     'chain:likelihood JC69+Weibull on ratio tree with strict clock': lambda: case_chain('likelihood'),
     'chain:likelihood (rescaling active)': lambda: case_chain('likelihood-rescaled'),
+    'chain:likelihood with tip states (rescaling active)': lambda: case_chain('likelihood-rescaled-tipstates'),
     'chain:joint = likelihood + coalescent + CTMC scale + Jacobian': lambda: case_chain('joint'),
     'gmrf:time-aware': lambda: case_gmrf_time(True),
     'gmrf:time-aware no rescale': lambda: case_gmrf_time(False),
@@ -255,14 +258,15 @@ def run_task(task, tr):
         keep = []
         for g in goals:
             if hasattr(g, 'nonzero_node'):
-                st, r, _ = prove(d, dom + list(t.pcs), d.eq(g.nonzero_node, 0), timeout=30, tr=tr, label=g.label, parallel=True)
+                st, r, _ = prove(d, dom + list(t.pcs), d.eq(g.nonzero_node, 0), timeout=(6 if opts.get('rescale') else 20), tr=tr, label=g.label, parallel=True)
                 if st == 'proved':
                     nonzero_pending.append((g, dict(Wt)))
             else:
                 keep.append(g)
         return keep
 
-    ex = Explorer(W, domain, body2, tr, max_regions=60, timeout=40.0, label=label, check_defined=False,
+    ex = Explorer(W, domain, body2, tr, max_regions=(2 if opts.get('rescale') else 60), timeout=(15.0 if opts.get('rescale') else 40.0),
+                  closure_timeout=(8.0 if opts.get('rescale') else 30.0), label=label, check_defined=False,
                   deadline=time.time() + 600, require_closure=not opts.get('rescale'))
     out = ex.run()
     for s in out.region_samples[:1]:
@@ -282,8 +286,7 @@ def run_task(task, tr):
 def tasks_for(tier):
     names = list(CASES)
     if tier == 'quick':
-        skip = {'tree_prior', 'likelihood:simple/invariant/JC69', 'coalescent:skyride', 'distribution:gamma',
-                'chain:likelihood (rescaling active)'}
+        skip = {'tree_prior', 'likelihood:simple/invariant/JC69', 'coalescent:skyride', 'distribution:gamma'}
         names = [n for n in names if n not in skip]
     return names
 
